@@ -91,8 +91,27 @@ pub fn mapper<'a>(bytes: &'a [u8], params: bool) -> Result<cur::M<'a>, Fail> {
         }
     }) {
         Err(p) => Err(Fail::new("mapper-panic", format!("ProguardMapper construction panicked: {p}"))),
-        Ok(m) => Ok(cur::M(m)),
+        Ok(m) => Ok(cur::M(m, "")),
     }
+}
+
+/// Every way of constructing a mapper from the same bytes: `new`, `new_with_param_mapping(_, true|false)` and — when the
+/// bytes are valid UTF-8 — the `From<&str>` / `From<(&str, bool)>` convenience constructors. All of them must answer
+/// alike (by-params answers only for those built with the parameter index).
+pub fn mapper_variants<'a>(bytes: &'a [u8]) -> Result<Vec<(cur::M<'a>, bool)>, Fail> {
+    let r = guarded(|| {
+        let mut v: Vec<(cur::M<'a>, bool)> = Vec::new();
+        v.push((cur::M(proguard::ProguardMapper::new(proguard::ProguardMapping::new(bytes)), "mapper"), false));
+        v.push((cur::M(proguard::ProguardMapper::new_with_param_mapping(proguard::ProguardMapping::new(bytes), true), "mapper(new_with_param_mapping true)"), true));
+        v.push((cur::M(proguard::ProguardMapper::new_with_param_mapping(proguard::ProguardMapping::new(bytes), false), "mapper(new_with_param_mapping false)"), false));
+        if let Ok(text) = std::str::from_utf8(bytes) {
+            v.push((cur::M(proguard::ProguardMapper::from(text), "mapper(From<&str>)"), false));
+            v.push((cur::M(proguard::ProguardMapper::from((text, true)), "mapper(From<(&str, true)>)"), true));
+            v.push((cur::M(proguard::ProguardMapper::from((text, false)), "mapper(From<(&str, false)>)"), false));
+        }
+        v
+    });
+    r.map_err(|p| Fail::new("mapper-panic", format!("ProguardMapper construction panicked: {p}")))
 }
 
 /// Run a closure that queries the library; a panic (incl. overflow) becomes a failure with its location.
